@@ -158,6 +158,33 @@ var shapes = []shape{
 	{"multi-sender-server", func(r *payload.SplitMix, cfg prog.Config, manual bool) *prog.Script {
 		return &prog.Script{Client: []prog.Act{{Op: 's', Size: 5}, {Op: 'h'}, {Op: 'R'}}, Handler: []prog.Act{{Op: 'r'}, {Op: 'P', Size: 2 + r.Intn(2)}}}
 	}},
+	{"size-walk", func(r *payload.SplitMix, cfg prog.Config, manual bool) *prog.Script {
+		// one direction carries a walk over size classes that makes the connection reader grow,
+		// keep, drop (after a run of more than ten small packets) and re-grow its buffers
+		var walk []prog.Act
+		large := func() int { return 60000 + r.Intn(70000) }
+		mid := func() int { return 4000 + r.Intn(28000) }
+		for seg := 0; seg < 2+r.Intn(2); seg++ {
+			if seg > 0 || r.Intn(2) == 0 {
+				walk = append(walk, prog.Act{Op: 's', Size: large()})
+			}
+			for i := 0; i < 9+r.Intn(5); i++ {
+				walk = append(walk, prog.Act{Op: 's', Size: r.Intn(40)})
+			}
+			if r.Intn(4) != 0 {
+				walk = append(walk, prog.Act{Op: 's', Size: mid()})
+			}
+			walk = append(walk, prog.Act{Op: 's', Size: large()})
+			if r.Intn(2) == 0 {
+				walk = append(walk, prog.Act{Op: 's', Size: r.Intn(40)}, prog.Act{Op: 's', Size: mid()}, prog.Act{Op: 's', Size: large()})
+			}
+		}
+		if r.Intn(2) == 0 {
+			s := &prog.Script{Client: append(walk, prog.Act{Op: 'h'}, prog.Act{Op: 'R'}), Handler: []prog.Act{{Op: 'R'}, {Op: 's', Size: 9}}}
+			return s
+		}
+		return &prog.Script{Client: []prog.Act{{Op: 's', Size: 9}, {Op: 'h'}, {Op: 'R'}}, Handler: append([]prog.Act{{Op: 'r'}}, walk...)}
+	}},
 	{"closer-race", func(r *payload.SplitMix, cfg prog.Config, manual bool) *prog.Script {
 		// a concurrent half-close races the last sends: only the prefix and
 		// "returned nil => delivered" clauses apply
@@ -209,7 +236,14 @@ func scenario(id string, seed uint64, sh shape, held bool, real string) runner.R
 		cfg.Desc += " transport=" + real
 		held = false
 	}
+	if sh.name == "size-walk" {
+		// frames large enough for single-frame and multi-frame messages to alternate
+		sp := payload.Pick(r, []int{0, -1, 8192, 65536})
+		cfg.Client.Stream.SplitSize, cfg.Server.Stream.SplitSize = sp, sp
+		cfg.Desc += fmt.Sprintf(" split:=%d", sp)
+	}
 	s := sh.gen(r, cfg, manual)
+	closer := held && payload.Hash(seed, 0xC105E)%2 == 0
 	if real != "" {
 		// the census cannot see through real sockets: no wait-for-quiescence actions
 		strip := func(a []prog.Act) []prog.Act {
@@ -224,7 +258,7 @@ func scenario(id string, seed uint64, sh shape, held bool, real string) runner.R
 		s.Client, s.Handler = strip(s.Client), strip(s.Handler)
 	}
 	s.Tag = 1 + uint64(r.Intn(1000))
-	s.Clean = sh.name != "closer-race"
+	s.Clean = sh.name != "closer-race" && !closer
 	s.Client = withFlush(s.Client, manual)
 	s.Handler = withFlush(s.Handler, manual)
 	if !prog.Validate(s) {
@@ -327,9 +361,11 @@ func scenario(id string, seed uint64, sh shape, held bool, real string) runner.R
 		Release()
 		Reached() <-chan struct{}
 	}
+	var end *simnet.End
+	var closerOp *rig.Op
 	if held {
 		// park a receiver between taking the delivered message and releasing it while more messages arrive
-		end := x.Rig.Pair.B
+		end = x.Rig.Pair.B
 		if sh.name == "server-stream" || sh.name == "multi-sender-server" {
 			end = x.Rig.Pair.A
 		}
@@ -344,11 +380,24 @@ func scenario(id string, seed uint64, sh shape, held bool, real string) runner.R
 		if st == "ready" {
 			heldReached = true
 			census.Quiesce(rig.Watchdog) // the reader goroutine gets every chance to overwrite the lent buffer
+			if closer {
+				// another application goroutine closes the receiving stream while the message is
+				// lent out; the peer keeps sending: the lent bytes must stay what they were
+				side := byte('s')
+				if end == x.Rig.Pair.A {
+					side = 'c'
+				}
+				closerOp = rig.Go("closer", func() (interface{}, error) { x.Log(s.Tag).CloseSide(side); return nil, nil })
+				census.Quiesce(rig.Watchdog)
+			}
 		}
 		park.Release()
 	}
 	st := x.WaitClients()
-	hist := fmt.Sprintf("%s | %s client=[%s] handler=[%s] held=%v", cfg.Desc, sh.name, actsString(s.Client), actsString(s.Handler), held)
+	if closerOp != nil {
+		rig.WaitAny(closerOp.Done())
+	}
+	hist := fmt.Sprintf("%s | %s client=[%s] handler=[%s] held=%v closed-while-held=%v", cfg.Desc, sh.name, actsString(s.Client), actsString(s.Handler), held, closer)
 	if st == "watchdog" {
 		return runner.Inconcl(id, "watchdog: "+hist)
 	}
@@ -448,7 +497,7 @@ func scenario(id string, seed uint64, sh shape, held bool, real string) runner.R
 		if s.Clean && len(order) != okSends {
 			failf("graceful RPC: %c side received %d of the %d messages whose send succeeded", side, len(order), okSends)
 		}
-		if sh.name == "closer-race" && side == 's' {
+		if sh.name == "closer-race" && side == 's' && !closer {
 			// graceful half-close racing sends: every send that returned nil must have been received
 			for k, se := range sends {
 				if se.Err == nil && next[k.sender] <= k.seq {
